@@ -114,6 +114,9 @@ func VxC18RunnerOutcomes() {
 		_ = runner.Run(vxCtx{&cancelled})
 		meta, merr := GetSchemaMetadata(d)
 		vx.Assert(merr == nil, "metadata-readable")
+		// what the run was asked to do stays on record whether or not it got there
+		target := reg.TargetVersion()
+		vx.Assert(uint64(target)&^uint64(meta.LastTargetVersion) == 0, "last-target-records-everything-the-run-was-asked-to-do")
 		for i := 0; i < 2; i++ {
 			// (a Migrate that returned (nil, ctx.Err()) - cancelled without state - used to be recorded as
 			// applied: KF-C18-1, fixed)
@@ -154,4 +157,25 @@ func VxC18RefusalRules() {
 		vx.Cover("refuses")
 		vx.Assert(!noDowngrade || optedOut != 0, "refuses-only-for-downgrade-or-opt-out")
 	}
+}
+
+
+// C18-H3b: opting out of a migration that an earlier run had opted into is refused, however that
+// earlier run ended (completed, still in progress, cancelled, failed) and whatever other
+// migrations it finished on the way.
+func VxC18OptOutAfterInterruptedRun() {
+	vx.Bound("run 1: mandatory migration 0 and optional migration 1 (enabled), every Migrate call with one of 7 outcomes; run 2 opens the database with migration 1 disabled")
+	d := memory.New()
+	w := &vxWorld{}
+	reg := NewRegistry().With(&vxMig{0, w}).WithOptional(&vxMig{1, w}, true, "opt-one")
+	runner, err := NewRunner(reg, d, &networks.Sepolia, log.NewNopZapLogger())
+	vx.Assert(err == nil, "runner-opens")
+	cancelled := false
+	_ = runner.Run(vxCtx{&cancelled})
+	if w.completed[0] && !w.completed[1] {
+		vx.Cover("first-migration-done-optional-one-interrupted")
+	}
+	reg2 := NewRegistry().With(&vxMig{0, w}).WithOptional(&vxMig{1, w}, false, "opt-one")
+	_, err = NewRunner(reg2, d, &networks.Sepolia, log.NewNopZapLogger())
+	vx.Assert(err != nil, "opt-out-of-a-previously-targeted-migration-is-refused")
 }
